@@ -61,8 +61,10 @@ mod vk_slice {
         match r {
             Some((begin, l, (k, p))) => {
                 assert!(b < en && begin == b, "[C02 C03 begin] chunk begins at the reserved position");
+                // (the more specific clause first: a failed assertion ends its path)
+                if let Some(q) = p { assert!(b + k < len && q == &slice[b + k] as *const u8, "[C19 C02 C03 same-address] the k-th chunk element points at the original element b + k"); }
                 assert!(l == en - b, "[C01 C03 exact-len] chunk length is min(n, len - b)");
-                if k < l { assert!(p == Some(&slice[b + k] as *const u8), "[C19 C02 C03 same-address] the k-th chunk element points at the original element b + k"); }
+                if k < l { assert!(p.is_some(), "[C03 exact-len] the chunk yields every element it announced"); }
                 else { assert!(p.is_none(), "[C03 exact-len] the chunk yields exactly the announced number of elements"); }
             }
             None => assert!(b == en, "[C01 C03 C05 C06 none-iff] None only when nothing is left"),
